@@ -1,4 +1,4 @@
 SPECIFICATION Spec
-CONSTANTS CmaxI = 129  EminNeg = 3  Emax = 3  Family = "scale"  DpMax = 9  SigMax = 300
+CONSTANTS CmaxI = 129  EminNeg = 2  Emax = 2  Family = "scale"  DpMax = 7  SigMax = 60
 INVARIANTS ScaleExact
 CHECK_DEADLOCK FALSE
